@@ -626,7 +626,7 @@ def r14_4(ctx, R):
                            expect="a function of the class's own second-namespace name only (post-processing exempt)")
     r14_4_map_nests(ctx, R)
     r14_4_inner_name(ctx, R)
-    R.floor(rid, 2 * 19 + 20 + 8)
+    R.floor(rid, 2 * 17 + 6 * 9 + 1 + 11)
 
 
 def r14_4_map_nests(ctx, R):
@@ -954,6 +954,23 @@ def r14_6(ctx, R):
         site = ("created-class" if in_new else "jar-class") + ("" if i < 2 else "#%d" % i)
         R.inst(rid, "entry-rename-under-flag:%s" % site, under_flag(en) is True and uses_remapper(en), sp=en["sp"],
                got="under flag: %s, remapper: %s" % (under_flag(en), uses_remapper(en)))
+    # 3b. without the flag: a created class is stored as <name>.class, a jar class keeps its entry name
+    for tp in [n for n in H.walk(body) if n.get("k") == "tuple" and len(n["es"]) == 2 and under_flag(n) is False]:
+        loops = [p for p in (H.parents_of(body, tp) or []) if p.get("k") == "for"]
+        in_new = any(any(H.is_call(x, "into_values", "values", "drain") for x in H.walk(p["iter"])) for p in loops)
+        if in_new:
+            env = {}
+            for p in loops:
+                for i, nm_ in H.pat_bindings(p["pat"]):
+                    env[i] = ("st", "ClassFile", {"name": U.name("E")})
+            ev = U.Ev(inline=ctx["inline"])
+            got = eval_with_lets(ev, body, tp["es"][0], env)
+            judge(R, rid, "entry-name-without-flag:created-class", got, U.name("E", U.lit(ctx["spec"]["class_entry_suffix"])), sp=tp["sp"],
+                  detail="a created enclosing class is stored under <class name>.class")
+        else:
+            vals = U.expand_locals(body, tp["es"][0])
+            kept = any(x.get("k") == "mcall" and x["name"] == "name" for x in vals) and not any(H.is_call(x, "remap_jar_entry_name", "remap_jar_entry_name_java", "map_class") for x in vals)
+            R.inst(rid, "entry-name-without-flag:jar-class", kept, sp=tp["sp"], got=H.render(tp["es"][0])[:120], expect="the entry's own name")
     # 4. the result map receives every entry; created classes are emitted
     rets = [n for n in H.walk(body) if n.get("k") == "struct" and (n.get("adt") or "").endswith("ParsedJar")]
     ok = False
@@ -971,7 +988,7 @@ def r14_6(ctx, R):
                     sites.add("created" if in_new else "jar")
             ok = sites == {"created", "jar"}
     R.inst(rid, "result-receives-created-and-jar-classes", ok, sp=nj["sp"], got="%d insert(s) into the result map" % n_ins)
-    R.floor(rid, 2 + 4 + 2 + 1)
+    R.floor(rid, 2 + 4 + 2 + 2 + 1)
 
 
 # ------------------------------------------------------------------------------------------------- R14.7 (wrappers)
